@@ -471,7 +471,92 @@ def machine_factory(hook, classes=None):
     return Machine
 
 
+# ------------------------------------------------------------------------------------------------ single-call side effects
+@st.composite
+def side_case(draw):
+    if draw(st.integers(0, 7)) == 0:
+        return {"spec": draw(E.kauri_spec(n_max=14, d_max=3))}
+    s = draw(E.est_spec(n_max=9, d_max=3, iter_max=2, k_max=3, hidden_max=3, n_min=3,
+                        kernel_forms=("named", "precomputed", "callable"), metric_forms=("named", "precomputed", "callable")))
+    if s["cls"] in E.SPARSE:
+        s["alpha"] = draw(st.sampled_from([0.5, 2.0, 0.1]))
+    return {"spec": s, "path": draw(st.booleans())}
+
+
+def deep_params(est):
+    """hyper-parameters with nested containers / GEMINI instances expanded, for a deep before/after comparison"""
+    out = {}
+    for k, v in est.get_params(deep=False).items():
+        if isinstance(v, np.ndarray):
+            out[k] = ("array", v.copy())
+        elif isinstance(v, (dict, list)):
+            out[k] = ("container", copy.deepcopy(v))
+        elif hasattr(v, "__dict__") and not isinstance(v, (types.FunctionType, types.BuiltinFunctionType)) and not isinstance(v, np.random.RandomState):
+            out[k] = ("object", type(v).__name__, copy.deepcopy({a: b for a, b in vars(v).items() if not callable(b)}))
+        else:
+            out[k] = ("value", v)
+    return out
+
+
+def deep_changed(a, b):
+    ch = []
+    for k in a:
+        x, y = a[k], b.get(k)
+        if y is None or x[0] != y[0]:
+            ch.append(k)
+        elif x[0] == "array":
+            if not np.array_equal(x[1], y[1]):
+                ch.append(k)
+        elif x[0] == "value":
+            if not (x[1] is y[1] or x[1] == y[1]):
+                ch.append(k)
+        elif x[1:] != y[1:]:
+            ch.append(k)
+    return ch
+
+
+def oracle_side(case):
+    """one fit / fit_predict / predict / predict_proba / score / path each: hyper-parameters (nested dictionaries and GEMINI
+    instances included) and the caller's arrays must come out untouched"""
+    s = case["spec"]
+    kauri = s["cls"] == "Kauri"
+    label = E.label(s)
+    X = E.build_kauri_data(s) if kauri else E.build_data(s)
+    est, y = (E.build_kauri(s, X) if kauri else E.build(s, X))
+    Xc = X.copy()
+    yc = None if y is None else np.array(y, copy=True)
+    before = deep_params(est)
+    ops = ["fit", "predict", "score", "fit_predict"] + ([] if kauri else ["predict_proba"])
+    if s["cls"] in E.SPARSE and case.get("path"):
+        ops.append("path")
+    with warnings.catch_warnings():
+        warnings.simplefilter("ignore")
+        with np.errstate(all="ignore"):
+            for op in ops:
+                try:
+                    if op in ("fit", "fit_predict", "score"):
+                        getattr(est, op)(X, y) if y is not None else getattr(est, op)(X)
+                    elif op == "path":
+                        est.path(X, y, **PATH_ARGS)
+                    else:
+                        getattr(est, op)(X)
+                except Exception as e:
+                    raise Violation(f"{label}: {op} raised {type(e).__name__}: {e}")
+                ch = deep_changed(before, deep_params(est))
+                if ch:
+                    raise Violation(f"{label}: {op} modified the hyper-parameters {ch} (nested dictionaries / objects included)")
+                if not np.array_equal(X, Xc) or (y is not None and not np.array_equal(y, yc)):
+                    raise Violation(f"{label}: {op} modified the caller's data or affinity array")
+    nested = any(v[0] in ("container", "object", "array") for v in before.values())
+    return {"nontrivial": bool(nested), "classes": [s["cls"]]}
+
+
 def subs():
+    return [Sub("single_call_side_effects", side_case(), oracle_side, 1500, 25000,
+                "one call of each public method: deep comparison of hyper-parameters and caller arrays")] + _subs()
+
+
+def _subs():
     fam = {"linear": ["LinearModel", "LinearMMD", "LinearWasserstein", "RIM", "KernelRIM"],
            "mlp": ["MLPModel", "MLPMMD", "MLPWasserstein"], "sparse": E.SPARSE,
            "categorical_douglas": E.CATEGORICAL + ["Douglas"], "kauri": ["Kauri"]}
